@@ -8,6 +8,8 @@ import SvgVerif.Model.Transform
 import SvgVerif.Model.Length
 import SvgVerif.Model.Color
 import SvgVerif.Model.Viewbox
+import SvgVerif.Model.Seg
+import SvgVerif.Model.ArcParam
 open Svg Svg.Wire
 
 def fmtMat (m : Mat Float) : String :=
@@ -118,6 +120,50 @@ def c13set (ch : String) (v : Nat) (x : Int) : String :=
   | "argb" => toString (Color.setArgb x.toNat) | "rgba" => toString x.toNat
   | _ => "bad-op"
 
+-- ---------------------------------------------------------------- segments on the wire
+instance : FMod Float where
+  fmod x y := let r := x - y * (x / y).floor; if r == y then 0 else r
+
+def optPt (a b : String) : Option (Pt Float) := if a = "-" then none else some ⟨floatOfHex a, floatOfHex b⟩
+
+/-- `M sx sy ex ey` | `L ...` | `Z ...` | `Q 6` | `C 8` | `A 11` (start end center prx pry sweep) -/
+def segOf (toks : List String) : Option (Seg Float) :=
+  match toks with
+  | ["M", a, b, c, d] => some (.move (optPt a b) ⟨floatOfHex c, floatOfHex d⟩)
+  | ["L", a, b, c, d] => some (.line (optPt a b) ⟨floatOfHex c, floatOfHex d⟩)
+  | ["Z", a, b, c, d] => some (.close (optPt a b) ⟨floatOfHex c, floatOfHex d⟩)
+  | "Q" :: r => (match r.map floatOfHex with
+      | [a, b, c, d, e, f] => some (.quad ⟨a, b⟩ ⟨c, d⟩ ⟨e, f⟩) | _ => none)
+  | "C" :: r => (match r.map floatOfHex with
+      | [a, b, c, d, e, f, g, h] => some (.cubic ⟨a, b⟩ ⟨c, d⟩ ⟨e, f⟩ ⟨g, h⟩) | _ => none)
+  | "A" :: r => (match r.map floatOfHex with
+      | [a, b, c, d, e, f, g, h, i, j, k] => some (.arc ⟨⟨a, b⟩, ⟨c, d⟩, ⟨e, f⟩, ⟨g, h⟩, ⟨i, j⟩, k⟩) | _ => none)
+  | _ => none
+
+def segOfStr (s : String) : Option (Seg Float) := segOf ((s.splitOn " ").filter (· ≠ ""))
+
+def fmtOptPt : Option (Pt Float) → String
+  | none => "- -"
+  | some p => fmtPt p
+
+def fmtSeg : Seg Float → String
+  | .move s e => "M " ++ fmtOptPt s ++ " " ++ fmtPt e
+  | .line s e => "L " ++ fmtOptPt s ++ " " ++ fmtPt e
+  | .close s e => "Z " ++ fmtOptPt s ++ " " ++ fmtPt e
+  | .quad s c e => "Q " ++ fmtPt s ++ " " ++ fmtPt c ++ " " ++ fmtPt e
+  | .cubic s c1 c2 e => "C " ++ fmtPt s ++ " " ++ fmtPt c1 ++ " " ++ fmtPt c2 ++ " " ++ fmtPt e
+  | .arc a => "A " ++ fmtPt a.start ++ " " ++ fmtPt a.end_ ++ " " ++ fmtPt a.center ++ " " ++ fmtPt a.prx
+      ++ " " ++ fmtPt a.pry ++ " " ++ hexOfFloat a.sweep
+
+def arcEps : Float := 1e-12
+
+def arcOfWire (toks : List String) : Option (ArcData Float) :=
+  match toks with
+  | [sx, sy, rx, ry, rot, fa, fs, ex, ey] =>
+      some (arcOfEndpoint ⟨floatOfHex sx, floatOfHex sy⟩ ⟨floatOfHex ex, floatOfHex ey⟩ (floatOfHex rx) (floatOfHex ry)
+        (floatOfHex rot) (fa = "1") (fs = "1"))
+  | _ => none
+
 -- ---------------------------------------------------------------- C11
 def boxOf : List Float → Box Float
   | [x, y, w, h] => ⟨x, y, w, h⟩
@@ -125,6 +171,29 @@ def boxOf : List Float → Box Float
 
 def step (line : String) : String :=
   match line.splitOn "\t" with
+  | ["seg.point", sg, t] =>
+      (match segOfStr sg with | some s => "OK " ++ fmtPt (s.point (floatOfHex t)) | none => "bad-op")
+  | ["seg.mul", sg, m] =>
+      (match segOfStr sg with | some s => "OK " ++ fmtSeg (s.mul (matOf (fl m)) arcEps) | none => "bad-op")
+  | ["seg.mulpoints", sg, m, ts] =>
+      (match segOfStr sg with
+       | some s => let s' := s.mul (matOf (fl m)) arcEps
+                   "OK " ++ " ".intercalate ((fl ts).map fun t => fmtPt (s'.point t))
+       | none => "bad-op")
+  | ["seg.points", sg, ts] =>
+      (match segOfStr sg with
+       | some s => "OK " ++ " ".intercalate ((fl ts).map fun t => fmtPt (s.point t))
+       | none => "bad-op")
+  | ["seg.reverse", sg] =>
+      (match segOfStr sg with
+       | some s => (match s.reverse with | some r => "OK " ++ fmtSeg r | none => "OK none")
+       | none => "bad-op")
+  | ["arc.param", a] =>
+      (match arcOfWire ((a.splitOn " ").filter (· ≠ "")) with
+       | some r => "OK " ++ fmtSeg (.arc r) | none => "bad-op")
+  | ["arc.parampoints", a, ts] =>
+      (match arcOfWire ((a.splitOn " ").filter (· ≠ "")) with
+       | some r => "OK " ++ " ".intercalate ((fl ts).map fun t => fmtPt (r.point t)) | none => "bad-op")
   | ["c11.vt", e, vb, asp] =>
       let a := Aspect.ofAttr (if asp = "-" then none else some (stringOfHex asp).toList)
       let vbo := if vb = "-" then none else some (boxOf (fl vb))
